@@ -707,7 +707,7 @@ package pokertable
 //@ spec handEntryLeaves(te, ids) = exists(k, 0, 10, k < len(GPI(te)) && leavingID(ids, PS(te)[GPI(te)[k]].PlayerID))
 
 //@ func (*tableEngine).calcLeavePlayers
-//@   property C01 C02 C03
+//@   property C01 C02 C03 C10
 //@   returns newPS, newSeatMap, newGPI
 //@   config M 2..10 quick 2..5 : tableMaxSeatCount = M
 //@   requires 2 <= tableMaxSeatCount && tableMaxSeatCount <= 10
